@@ -824,6 +824,11 @@ func (fr *Frame) execGo(st *State, x *ssa.Go) {
 	c := fr.c
 	cc := x.Common()
 	name := calleeName(cc)
+	if fr.contract != nil && fr.depth == 0 && fr.contract.Opts["nospawn"] == "yes" && c.dry == 0 {
+		// mechanism obligation: this function does its work itself, in program order (e.g. a loop that
+		// serialises refreshes); starting a goroutine here is a failing obligation
+		c.oblige(fr, st, "safe", fmt.Sprintf("safe:nospawn#%d", c.ordinals[x]), False, nil, "goroutine started in a function declared nospawn: "+x.String(), false)
+	}
 	// A goroutine runs concurrently: nothing is learned; its effects on shared state are only
 	// visible through monitors. We check its callee's preconditions when it has a contract.
 	if callee := cc.StaticCallee(); callee != nil {
